@@ -56,7 +56,46 @@ def gen_case(seed, tier, prop="C15"):
     return {"engine": "threads_portal", "prop": "C15", "mode": mode, "callers": callers,
             "main_yields": rng.randint(0, 8), "leave_early": leave_early, "exit_with_error": rng.random() < 0.15,
             "inline_stop_after": rng.choice([0.125, 0.25, 0.5, 1.0]), "two_step_stop": rng.random() < 0.4,
-            "loop": loop, "sched_seed": rng.getrandbits(32)}
+            "loop": loop, "sched_seed": rng.getrandbits(32),
+            "preempt": rng.choice([0, 0, 0, 0.03, 0.15])}
+
+
+_CUR = None
+_patched = False
+
+
+def _patch_portal_exit():
+    """Harness-side observation: an exception group leaving BlockingPortal.__aexit__ means the portal's own task group
+    crashed (start_blocking_portal() swallows it silently, so it must be caught here)."""
+    global _patched
+    if _patched:
+        return
+    _patched = True
+    from anyio.from_thread import BlockingPortal
+    orig = BlockingPortal.__aexit__
+
+    async def __aexit__(self, et, ev, tb):
+        try:
+            return await orig(self, et, ev, tb)
+        except BaseExceptionGroup as eg:
+            run = _CUR
+            if run is not None:
+                leaves = []
+
+                def walk(e):
+                    if isinstance(e, BaseExceptionGroup):
+                        for x in e.exceptions:
+                            walk(x)
+                    else:
+                        leaves.append(e)
+                walk(eg)
+                bad = [e for e in leaves if not isinstance(e, CallErr)]
+                if bad:
+                    run.v("portal_crashed", "the portal's task group failed with " + "; ".join(repr(e)[:160] for e in bad[:3])
+                          + " - every other call through the portal is cancelled or refused from then on",
+                          sig="C15.portal_crashed:" + ",".join(sorted({type(e).__name__ for e in bad})))
+            raise
+    BlockingPortal.__aexit__ = __aexit__
 
 
 class PortalRun:
@@ -448,7 +487,10 @@ class PortalRun:
         self.rng_loop = random.Random(f"loop:{seed}")
         from collections import Counter
         self.faults = Counter()
-        sched = baton.begin(random.Random(f"baton:{seed}"), self.faults, "main")
+        global _CUR
+        _patch_portal_exit()
+        _CUR = self
+        sched = baton.begin(random.Random(f"baton:{seed}"), self.faults, "main", preempt=case.get("preempt", 0))
         simset.set_rng(random.Random(f"set:{seed}"), self.faults)
         snap = {}
 
@@ -549,6 +591,10 @@ class PortalRun:
 
 
 def shrinks(case):
+    if case.get("preempt"):
+        c = copy.deepcopy(case)
+        c["preempt"] = 0
+        yield c
     for i in range(len(case["callers"])):
         if len(case["callers"]) > 1:
             c = copy.deepcopy(case)
